@@ -278,9 +278,6 @@ def coq_program(idx, p):
                 "true" if p["ret_fresh"] else "false"))
 
 
-def regenerate():  # replaced further down once the translator is complete
-    return {"ok": False, "reason": "translator under construction", "programs": []}
-
 
 # ================================================================================================
 # part 2: source model
@@ -350,9 +347,9 @@ class ClassInfo:
 
 
 class ModuleInfo:
-    def __init__(self, name, path):
+    def __init__(self, name, path, text=None):
         self.name, self.path = name, path
-        self.src = open(path).read()
+        self.src = open(path).read() if text is None else text
         self.tree = ast.parse(self.src)
         self.imports = {}         # local name -> qualified ("numpy", "functools.reduce", "catii.ffuncs")
         self.classes, self.functions, self.consts = {}, {}, set()
@@ -378,10 +375,10 @@ class ModuleInfo:
 
 
 class Source:
-    def __init__(self, repo):
+    def __init__(self, repo, overrides=None):
         self.mods = {}
         for m in MODULES:
-            self.mods[m] = ModuleInfo(m, os.path.join(repo, "src", "catii", m + ".py"))
+            self.mods[m] = ModuleInfo(m, os.path.join(repo, "src", "catii", m + ".py"), (overrides or {}).get(m))
         self.all_classes = []
         for m in self.mods.values():
             for c in m.classes.values():
@@ -476,6 +473,8 @@ def assigned_names(fn):
                 if isinstance(st, (ast.FunctionDef, ast.ClassDef)):
                     out.add(st.name)
             walk(ast.Module(body=fn.body, type_ignores=[]))
+    elif fn is not None:
+        walk(fn)
     return out
 
 
@@ -511,10 +510,11 @@ NOC = object()
 
 class V:
     """What an expression denotes at translation time."""
-    __slots__ = ("var", "funcs", "unknown_fn", "const", "cls", "mod", "tab")
+    __slots__ = ("var", "funcs", "unknown_fn", "const", "cls", "mod", "tab", "items")
 
-    def __init__(self, var=None, funcs=(), const=NOC, cls=None, mod=None, tab=(), unknown_fn=False):
+    def __init__(self, var=None, funcs=(), const=NOC, cls=None, mod=None, tab=(), unknown_fn=False, items=None):
         self.var, self.funcs, self.const, self.cls, self.mod = var, frozenset(funcs), const, cls, mod
+        self.items = items        # variables of the components when the value is certainly an n-tuple display
         self.tab = tuple(tab)
         self.unknown_fn = unknown_fn
 
@@ -535,8 +535,9 @@ class FuncVal:
 
 
 def ndarray_locals(fn, module):
-    """Locals whose every binding is `name = numpy.<allocating function>(...)`: certainly arrays."""
-    good, bad = set(), set()
+    """Locals whose every binding is `name = numpy.<allocating function>(...)`: certainly arrays
+    (of a non-object dtype), so `name[k] = v` copies data and stores no reference."""
+    good, bad, simple = set(), set(), set()
     if not isinstance(fn, ast.FunctionDef):
         return good
     a = fn.args
@@ -549,20 +550,12 @@ def ndarray_locals(fn, module):
                   and module.imports.get(v.func.value.id) == "numpy" and v.func.attr in ("zeros", "ones", "empty", "full", "arange")
                   and not any(k.arg == "dtype" and "object" in ast.unparse(k.value) for k in v.keywords))
             (good if ok else bad).add(n.targets[0].id)
-        elif isinstance(n, ast.Name) and isinstance(n.ctx, ast.Store):
-            pass
-    # any other binding form of the name disqualifies it
+            simple.add(id(n.targets[0]))
     for n in ast.walk(fn):
-        if isinstance(n, ast.Name) and isinstance(n.ctx, (ast.Store, ast.Del)):
-            n._seen_store = True
-    for n in ast.walk(fn):
-        if isinstance(n, ast.Assign) and len(n.targets) == 1 and isinstance(n.targets[0], ast.Name):
-            n.targets[0]._simple = True
-    for n in ast.walk(fn):
-        if isinstance(n, ast.Name) and isinstance(n.ctx, (ast.Store, ast.Del)) and not getattr(n, "_simple", False):
+        if isinstance(n, ast.Name) and isinstance(n.ctx, (ast.Store, ast.Del)) and id(n) not in simple:
             bad.add(n.id)
-        if isinstance(n, ast.AugAssign) and isinstance(n.target, ast.Name):
-            bad.discard(n.target.id) if False else None
+        elif isinstance(n, ast.FunctionDef) and n is not fn:
+            bad.add(n.name)
     return good - bad
 
 
@@ -574,6 +567,7 @@ class Frame:
         self.vars, self.consts, self.funcs, self.fn_unknown, self.mods = {}, {}, {}, set(), {}
         self.ret = tr.newvar()
         self.ret_funcs, self.ret_unknown, self.ret_objs = set(), False, False
+        self.ret_items = None     # None: no return seen; False: not always an n-tuple display; else component variables
         self.gen = None
         self.recursive = False
         self.params = []          # (name, var)
@@ -607,3 +601,1373 @@ class Frame:
                 return f
             f = f.parent
         return None
+
+
+# ================================================================================================
+# part 4: the translator (one instance per program)
+# ================================================================================================
+MODULE_NAMES = {"numpy", "time", "itertools", "operator", "sys", "warnings", "multiprocessing", "multiprocessing.pool",
+                "functools", "contextlib", "collections"}
+MAX_INLINE_DEPTH = 14
+MAX_IR = 60000
+
+
+class Translator:
+    def __init__(self, src):
+        self.src = src
+        self.nv = 0
+        self.sites = {}
+        self.site_desc = {}
+        self.diag = {}
+        self.stack = []           # (key, frame)
+        self.claims = []          # FreshTracer claims
+        self.failclosed = []      # positions of fail-closed calls
+        self.budget = 0
+
+    # ---- small helpers ---------------------------------------------------------------------
+    def newvar(self):
+        self.nv += 1
+        return self.nv - 1
+
+    def site(self, node, fr, what=""):
+        key = (fr.module.name, getattr(node, "lineno", 0), getattr(node, "col_offset", 0), what)
+        if key not in self.sites:
+            self.sites[key] = FIRST_SITE + len(self.sites)
+            self.site_desc[self.sites[key]] = "%s.py:%d:%d %s" % key
+        return self.sites[key]
+
+    def pos(self, node, fr):
+        return (fr.module.name, getattr(node, "lineno", 0))
+
+    def diagvar(self, attr):
+        if attr not in self.diag:
+            self.diag[attr] = self.newvar()
+        return self.diag[attr]
+
+    def elems(self, v, out, pos=None):
+        if v is None:
+            return None
+        x = self.newvar()
+        out.append(LOAD(x, ELEM, [v], pos))
+        out.append(ALIAS(x, [x, v], pos))
+        return x
+
+    def fresh(self, node, fr, refs, out, what="", field=ELEM):
+        """new object referencing refs as ELEMENTS (not through the wildcard field 0: an attribute
+        read of the new object must not return its elements)"""
+        x = self.newvar()
+        pos = self.pos(node, fr)
+        out.append(FRESH(x, self.site(node, fr, what), [], pos))
+        for r in refs:
+            if r is not None:
+                out.append(STORE(x, field, r, pos))
+        return x
+
+    def fresh_at(self, x, site, refs, out, pos):
+        out.append(FRESH(x, site, [], pos))
+        for r in refs:
+            if r is not None:
+                out.append(STORE(x, ELEM, r, pos))
+
+    def fail_closed(self, node, fr, vs, out, why):
+        """most general client of the objects vs"""
+        x, t, w, n = self.newvar(), self.newvar(), self.newvar(), self.newvar()
+        ys = [v for v in vs if v is not None]
+        out.append(CALL(x, self.site(node, fr, "unknown-call"), t, w, n, ys, ys, self.pos(node, fr)))
+        self.failclosed.append("%s.py:%d %s" % (fr.module.name, getattr(node, "lineno", 0), why))
+        return V(var=x)
+
+    # ---- static evaluation of conditions (constant default / literal arguments only) -------------
+    def static_value(self, fr, e):
+        if isinstance(e, ast.Constant):
+            return e.value
+        if isinstance(e, ast.Name):
+            o = fr.owner(e.id)
+            if o is not None and e.id in o.consts:
+                return o.consts[e.id]
+        return NOC
+
+    def static_cond(self, fr, e):
+        v = self.static_value(fr, e)
+        if v is not NOC:
+            return bool(v)
+        if isinstance(e, ast.UnaryOp) and isinstance(e.op, ast.Not):
+            r = self.static_cond(fr, e.operand)
+            return None if r is None else (not r)
+        if isinstance(e, ast.BoolOp):
+            rs = [self.static_cond(fr, x) for x in e.values]
+            if isinstance(e.op, ast.And):
+                if any(r is False for r in rs):
+                    return False
+                return True if all(r is True for r in rs) else None
+            if any(r is True for r in rs):
+                return True
+            return False if all(r is False for r in rs) else None
+        if isinstance(e, ast.Compare) and len(e.ops) == 1 and isinstance(e.ops[0], (ast.Is, ast.IsNot)):
+            a, b = self.static_value(fr, e.left), self.static_value(fr, e.comparators[0])
+            if a is not NOC and b is not NOC and (a is None or b is None):
+                r = (a is None) and (b is None)
+                return r if isinstance(e.ops[0], ast.Is) else (not r)
+        return None
+
+    # ---- names ---------------------------------------------------------------------------------
+    def name(self, fr, node, out):
+        n = node.id
+        o = fr.owner(n)
+        if o is not None:
+            if n in o.mods:
+                return self.qualified(o.mods[n])
+            if n in getattr(o, "clsparams", {}):
+                return V(cls=o.clsparams[n])
+            return V(var=o.var(n), funcs=o.funcs.get(n, ()), unknown_fn=(n in o.fn_unknown),
+                     const=o.consts.get(n, NOC))
+        m = fr.module
+        if n in m.functions:
+            return V(funcs=[FuncVal(m.functions[n], m)])
+        if n in m.classes:
+            return V(cls=m.classes[n])
+        if n in m.imports:
+            return self.qualified(m.imports[n])
+        if n in m.consts:
+            return V()
+        if n == "dict":
+            return V(tab=["builtins.dict"])
+        if n in T.BUILTINS:
+            return V(tab=["builtins." + n])
+        import builtins
+        b = getattr(builtins, n, None)
+        if isinstance(b, type) and issubclass(b, BaseException):
+            return V(tab=["builtins.ValueError"])
+        if n in ("object", "NotImplemented", "Ellipsis", "__name__"):
+            return V()
+        raise Unsupported("unknown global name %s" % n)
+
+    def qualified(self, q):
+        if q.startswith("catii."):
+            rest = q[len("catii."):]
+            parts = rest.split(".")
+            if parts[0] in self.src.mods:
+                m = self.src.mods[parts[0]]
+                if len(parts) == 1:
+                    return V(mod=q)
+                return self.module_attr(m, parts[1])
+            if parts[0] == "set_operations":
+                return V(tab=["set_operations." + parts[1]]) if len(parts) > 1 else V(mod=q)
+            raise Unsupported("import of %s" % q)
+        if q in T.QUALIFIED:
+            return V(tab=[q])
+        if q in MODULE_NAMES or q.split(".")[0] in MODULE_NAMES:
+            if q.count(".") and q.split(".")[0] != "multiprocessing" and q not in MODULE_NAMES:
+                return V(tab=[q])
+            return V(mod=q)
+        raise Unsupported("import of %s" % q)
+
+    def module_attr(self, m, attr):
+        if attr in m.functions:
+            return V(funcs=[FuncVal(m.functions[attr], m)])
+        if attr in m.classes:
+            return V(cls=m.classes[attr])
+        if attr in m.consts:
+            return V()
+        if attr in m.imports:
+            return self.qualified(m.imports[attr])
+        raise Unsupported("unknown module attribute %s.%s" % (m.name, attr))
+
+    # ---- attribute reads -----------------------------------------------------------------------
+    def attribute(self, fr, node, out):
+        base = self.ex(fr, node.value, out)
+        attr = node.attr
+        pos = self.pos(node, fr)
+        if base.mod is not None:
+            if base.mod.startswith("catii."):
+                return self.module_attr(self.src.mods[base.mod.split(".")[1]], attr)
+            q = base.mod + "." + attr
+            if q in T.QUALIFIED or base.mod == "numpy":
+                return V(tab=[q])
+            if q in MODULE_NAMES:
+                return V(mod=q)
+            return V(tab=[q])
+        if base.tab and base.var is None:
+            if base.tab == ("builtins.dict",):
+                return V(tab=["dict." + attr])
+            return V()                     # attribute of a table function / numpy type: a plain value
+        if base.cls is not None:
+            r = base.cls.lookup(attr)
+            if r is not None:
+                c, fn = r
+                return V(funcs=[FuncVal(fn, c.module, cls=c, kind=c.kinds[attr], self_cls=base.cls, exact=False)])
+            for c in base.cls.mro():
+                if attr in c.attr_tabfn:
+                    return V(tab=[c.attr_tabfn[attr]])
+            return V()
+        if base.var is None:
+            return V()
+        f = self.src.field(attr)
+        if attr in T.CALLBACK_ATTRS:
+            return V(tab=["callback"])
+        if attr in T.CLASS_ATTRS:
+            return V(tab=[T.CLASS_ATTRS[attr]])
+        x = self.newvar()
+        out.append(LOAD(x, f, [base.var], pos))
+        if attr in T.DIAG_FIELDS:
+            out.append(ALIAS(x, [x, self.diagvar(attr)], pos))
+            return V(var=x)
+        if attr == "__class__":
+            mf = fr.method_frame()
+            if isinstance(node.value, ast.Name) and mf is not None and node.value.id == mf.self_name:
+                return V(cls=mf.self_cls)
+            return V(var=x)
+        # properties of in-scope classes with that name are executed by the read
+        for c in self.src.property_names.get(attr, []):
+            fv = FuncVal(c.methods[attr], c.module, cls=c, kind="method", self_cls=c, exact=False)
+            blk = []
+            r = self.inline(fr, fv, [base], {}, [], node, blk)
+            if r.var is not None:
+                blk.append(ALIAS(x, [x, r.var], pos))
+            out.append(IF(blk, []))
+        if attr in SCALAR_ATTRS:
+            return V()
+        if attr in T.VIEW_ATTRS:
+            out.append(ALIAS(x, [x, base.var], pos))
+        tabs = self.src.attr_tabfn.get(attr)
+        if tabs and None not in tabs:
+            return V(var=x, tab=sorted(tabs))
+        return V(var=x)
+
+    # ---- expressions ---------------------------------------------------------------------------
+    def ex(self, fr, e, out):
+        self.budget += 1
+        if self.budget > 400000:
+            raise Unsupported("translation budget exceeded")
+        pos = self.pos(e, fr)
+        if isinstance(e, ast.Constant):
+            return V(const=e.value)
+        if isinstance(e, ast.Name):
+            return self.name(fr, e, out)
+        if isinstance(e, ast.Attribute):
+            return self.attribute(fr, e, out)
+        if isinstance(e, ast.Call):
+            return self.call(fr, e, out)
+        if isinstance(e, ast.Subscript):
+            b = self.ex(fr, e.value, out)
+            self.ex(fr, e.slice, out)
+            if b.var is None:
+                return V()
+            return V(var=self.elems(b.var, out, pos))
+        if isinstance(e, ast.Slice):
+            for p in (e.lower, e.upper, e.step):
+                if p is not None:
+                    self.ex(fr, p, out)
+            return V()
+        if isinstance(e, (ast.Tuple, ast.List, ast.Set)):
+            refs = []
+            for el in e.elts:
+                if isinstance(el, ast.Starred):
+                    v = self.ex(fr, el.value, out)
+                    refs.append(self.elems(v.var, out, pos))
+                else:
+                    refs.append(self.ex(fr, el, out).var)
+            items = None
+            if isinstance(e, ast.Tuple) and not any(isinstance(el, ast.Starred) for el in e.elts):
+                items = list(refs)
+            return V(var=self.fresh(e, fr, refs, out, "display"), items=items)
+        if isinstance(e, ast.Dict):
+            refs = []
+            for k, v in zip(e.keys, e.values):
+                if k is None:
+                    refs.append(self.elems(self.ex(fr, v, out).var, out, pos))
+                else:
+                    self.ex(fr, k, out)
+                    refs.append(self.ex(fr, v, out).var)
+            return V(var=self.fresh(e, fr, refs, out, "display"))
+        if isinstance(e, ast.UnaryOp):
+            v = self.ex(fr, e.operand, out)
+            if v.var is None:
+                return V()
+            return V(var=self.fresh(e, fr, [], out, "arith"))
+        if isinstance(e, ast.Compare):
+            vs = [self.ex(fr, x, out) for x in [e.left] + e.comparators]
+            if all(v.var is None for v in vs):
+                return V()
+            return V(var=self.fresh(e, fr, [], out, "arith"))
+        if isinstance(e, ast.BinOp):
+            a, b = self.ex(fr, e.left, out), self.ex(fr, e.right, out)
+            if a.var is None and b.var is None:
+                return V()
+            refs = []
+            if isinstance(e.op, (ast.Add, ast.Mult)):      # also tuple / list concatenation, repetition
+                c = self.newvar()
+                out.append(LOAD(c, ELEM, [a.var, b.var], pos))
+                refs = [c]
+            return V(var=self.fresh(e, fr, refs, out, "arith"))
+        if isinstance(e, ast.BoolOp):
+            vs = [self.ex(fr, x, out) for x in e.values]
+            if all(v.var is None for v in vs):
+                return V()
+            x = self.newvar()
+            out.append(ALIAS(x, [v.var for v in vs], pos))
+            fs = set()
+            for v in vs:
+                fs |= v.funcs
+            return V(var=x, funcs=fs, unknown_fn=bool(fs) and any(v.var is not None and not v.funcs for v in vs))
+        if isinstance(e, ast.IfExp):
+            c = self.static_cond(fr, e.test)
+            if c is True:
+                return self.ex(fr, e.body, out)
+            if c is False:
+                return self.ex(fr, e.orelse, out)
+            self.ex(fr, e.test, out)
+            x = self.newvar()
+            ba, bb = [], []
+            va, vb = self.ex(fr, e.body, ba), self.ex(fr, e.orelse, bb)
+            ba.append(ALIAS(x, [va.var], pos))
+            bb.append(ALIAS(x, [vb.var], pos))
+            out.append(IF(ba, bb))
+            if va.var is None and vb.var is None:
+                return V()
+            return V(var=x, funcs=va.funcs | vb.funcs)
+        if isinstance(e, (ast.ListComp, ast.SetComp, ast.GeneratorExp, ast.DictComp)):
+            return self.comprehension(fr, e, out)
+        if isinstance(e, ast.Lambda):
+            fv = FuncVal(e, fr.module, parent=fr, kind="function")
+            fv.clo = self.closure_object(fr, e, out)
+            return V(var=fv.clo, funcs=[fv])
+        if isinstance(e, ast.JoinedStr):
+            for v in e.values:
+                self.ex(fr, v, out)
+            return V()
+        if isinstance(e, ast.FormattedValue):
+            self.ex(fr, e.value, out)
+            return V()
+        if isinstance(e, ast.Yield):
+            if fr.gen is None:
+                raise Unsupported("yield outside a generator frame")
+            if e.value is not None:
+                v = self.ex(fr, e.value, out)
+                if v.var is not None:
+                    out.append(STORE(fr.gen, ELEM, v.var, pos))
+            return V()
+        if isinstance(e, ast.Starred):
+            v = self.ex(fr, e.value, out)
+            return V(var=self.elems(v.var, out, pos))
+        raise Unsupported("expression %s" % type(e).__name__)
+
+    def free_vars(self, fr, fn):
+        """IR variables of the enclosing frames that a nested function / lambda may read."""
+        own = assigned_names(fn)
+        out = []
+        body = fn.body if isinstance(fn.body, list) else [fn.body]
+        for st in body:
+            for n in ast.walk(st):
+                if isinstance(n, ast.Name) and n.id not in own:
+                    o = fr.owner(n.id)
+                    if o is not None and n.id not in o.mods:
+                        v = o.var(n.id)
+                        if v not in out:
+                            out.append(v)
+        return out
+
+    def closure_object(self, fr, fn, out):
+        return self.fresh(fn, fr, self.free_vars(fr, fn), out, "closure", field=ANY)
+
+    def refresh_closures(self, fr, v, out, pos):
+        """captured variables are captured BY REFERENCE: re-capture when the closure escapes"""
+        for fv in v.funcs:
+            if fv.clo is not None and fv.parent is not None:
+                for x in self.free_vars(fv.parent, fv.node):
+                    out.append(STORE(fv.clo, ANY, x, pos))
+
+    def comprehension(self, fr, e, out):
+        pos = self.pos(e, fr)
+        cf = Frame(self, None, fr.module, parent=fr, cls=None, kind="comp")
+        for g in e.generators:
+            tmp = ast.For(target=g.target, iter=g.iter, body=[], orelse=[])
+            cf.locals |= assigned_names(ast.Module(body=[tmp], type_ignores=[]))
+        res = self.fresh(e, fr, [], out, "comprehension")
+
+        def gen(i, blk):
+            if i == len(e.generators):
+                if isinstance(e, ast.DictComp):
+                    self.ex(cf, e.key, blk)
+                    v = self.ex(cf, e.value, blk)
+                else:
+                    v = self.ex(cf, e.elt, blk)
+                if v.var is not None:
+                    self.refresh_closures(cf, v, blk, pos)
+                    blk.append(STORE(res, ELEM, v.var, pos))
+                return
+            g = e.generators[i]
+            it = self.ex(cf if i else fr, g.iter, blk)
+            body = []
+            el = self.elems(it.var, body, pos)
+            self.assign(cf, g.target, V(var=el), body, pos)
+            inner = body
+            for c in g.ifs:
+                sc = self.static_cond(cf, c)
+                if sc is False:
+                    blk.append(LOOP(body))
+                    return
+                self.ex(cf, c, inner)
+            gen(i + 1, inner)
+            blk.append(LOOP(body))
+
+        gen(0, out)
+        return V(var=res)
+
+    # ---- calls -----------------------------------------------------------------------------------
+    def eval_args(self, fr, node, out):
+        pos_args, star, kw, dstar = [], [], {}, []
+        for a in node.args:
+            if isinstance(a, ast.Starred):
+                star.append(self.ex(fr, a.value, out))
+            else:
+                pos_args.append(self.ex(fr, a, out))
+        for k in node.keywords:
+            if k.arg is None:
+                dstar.append(self.ex(fr, k.value, out))
+            else:
+                kw[k.arg] = self.ex(fr, k.value, out)
+        return pos_args, star, kw, dstar
+
+    def call(self, fr, node, out):
+        f = node.func
+        pos = self.pos(node, fr)
+        # super().m(...)
+        if isinstance(f, ast.Attribute) and isinstance(f.value, ast.Call) and isinstance(f.value.func, ast.Name) \
+                and f.value.func.id == "super" and not f.value.args:
+            mf = fr.method_frame()
+            if mf is None:
+                raise Unsupported("super() outside a method")
+            args, star, kw, dstar = self.eval_args(fr, node, out)
+            selfv = V(var=mf.var(mf.self_name))
+            for b in mf.cls.bases:
+                r = b.lookup(f.attr)
+                if r is not None:
+                    fv = FuncVal(r[1], r[0].module, cls=r[0], kind=r[0].kinds[f.attr], self_cls=mf.self_cls, exact=mf.exact)
+                    return self.inline(fr, fv, [selfv] + args, kw, star + dstar, node, out)
+            if mf.cls.is_dict() and f.attr in T.METHODS:
+                return self.table_call(fr, node, T.METHODS[f.attr], "dict." + f.attr, [selfv] + args, star, kw, dstar, out)
+            return self.fail_closed(node, fr, [selfv.var] + [a.var for a in args + star + dstar + list(kw.values())], out,
+                                    "super().%s" % f.attr)
+        if isinstance(f, ast.Attribute):
+            recv = self.ex(fr, f.value, out)
+            args, star, kw, dstar = self.eval_args(fr, node, out)
+            extra = star + dstar
+            m = f.attr
+            if m == "__class__":
+                return self.call_value(fr, node, self.attribute(fr, f, []), args, star, kw, dstar, out, what="__class__")
+            if recv.mod is not None or (recv.tab and recv.var is None) or recv.cls is not None:
+                fvl = self.attribute_of(fr, recv, f, out)
+                return self.call_value(fr, node, fvl, args, star, kw, dstar, out, what=ast.unparse(f))
+            if recv.var is None:
+                if m in T.METHODS:
+                    return self.table_call(fr, node, T.METHODS[m], "." + m, [recv] + args, star, kw, dstar, out)
+                return self.fail_closed(node, fr, [a.var for a in args + extra + list(kw.values())], out, "method .%s of a value" % m)
+            if m in T.CALLBACK_ATTRS:
+                return V()
+            if m in T.CLASS_ATTRS:
+                return self.call_value(fr, node, V(tab=[T.CLASS_ATTRS[m]]), args, star, kw, dstar, out, what=m)
+            tabs = self.src.attr_tabfn.get(m)
+            if tabs and None not in tabs and not self.method_defs(m):
+                return self.call_value(fr, node, V(tab=sorted(tabs)), args, star, kw, dstar, out, what="attribute ." + m)
+            # method dispatch
+            cands = []
+            mf = fr.method_frame()
+            is_self = isinstance(f.value, ast.Name) and mf is not None and f.value.id == mf.self_name and \
+                fr.owner(f.value.id) is mf and mf.self_name not in mf.rebound
+            if is_self:
+                classes = [mf.self_cls] if mf.exact else sorted(mf.self_cls.family(), key=lambda c: c.name)
+                seen = set()
+                for c in classes:
+                    r = c.lookup(m)
+                    if r is not None and id(r[1]) not in seen and r[0].kinds[m] != "property":
+                        seen.add(id(r[1]))
+                        cands.append(FuncVal(r[1], r[0].module, cls=r[0], kind=r[0].kinds[m], self_cls=mf.self_cls if mf.exact else r[0], exact=mf.exact))
+                use_table = (not cands) or (mf.cls.is_dict() and m in T.METHODS and not cands)
+            else:
+                for c, fn in self.method_defs(m):
+                    cands.append(FuncVal(fn, c.module, cls=c, kind=c.kinds[m], self_cls=c, exact=False))
+                use_table = m in T.METHODS
+            cands = [fv for fv in cands if self.arity_ok(fv, len(args), kw, bool(star), bool(dstar), bound=True)]
+            branches = []
+            res = self.newvar()
+            any_obj = False
+            rs = []
+            for fv in cands:
+                blk = []
+                r = self.inline(fr, fv, ([recv] if fv.kind != "static" else []) + args, kw, extra, node, blk)
+                rs.append(r)
+                if r.var is not None:
+                    blk.append(ALIAS(res, [r.var], pos))
+                    any_obj = True
+                branches.append(blk)
+            if use_table and m in T.METHODS:
+                blk = []
+                r = self.table_call(fr, node, T.METHODS[m], "." + m, [recv] + args, star, kw, dstar, blk)
+                rs.append(r)
+                if r.var is not None:
+                    blk.append(ALIAS(res, [r.var], pos))
+                    any_obj = True
+                branches.append(blk)
+            if not branches:
+                return self.fail_closed(node, fr, [recv.var] + [a.var for a in args + extra + list(kw.values())], out,
+                                        "unknown method .%s" % m)
+            self.emit_alternatives(branches, out)
+            fs = set()
+            for r in rs:
+                fs |= r.funcs
+            unk = bool(fs) and any(r.unknown_fn or (r.var is not None and not r.funcs) for r in rs)
+            if len(rs) == 1:
+                return V(var=rs[0].var, funcs=fs, unknown_fn=unk, items=rs[0].items)
+            return V(var=res if any_obj else None, funcs=fs, unknown_fn=unk)
+        fvl = self.ex(fr, f, out)
+        args, star, kw, dstar = self.eval_args(fr, node, out)
+        return self.call_value(fr, node, fvl, args, star, kw, dstar, out, what=ast.unparse(f)[:40])
+
+    def attribute_of(self, fr, recv, f, out):
+        """value of `recv.attr` where recv is a module / class / table name (already evaluated)"""
+        fake = ast.Attribute(value=f.value, attr=f.attr, ctx=ast.Load())
+        ast.copy_location(fake, f)
+        tmp = []
+        return self.attribute(fr, fake, tmp)     # no effects: recv is a pure name
+
+    def emit_alternatives(self, branches, out):
+        if len(branches) == 1:
+            out.extend(branches[0])
+            return
+        cur = branches[-1]
+        for b in reversed(branches[:-1]):
+            cur = [IF(b, cur)]
+        out.extend(cur)
+
+    def method_defs(self, m):
+        out = []
+        for c in self.src.all_classes:
+            if m in c.methods and c.kinds[m] != "property" and c.node.name + "." + m not in getattr(T, "NO_DISPATCH", ()):
+                out.append((c, c.methods[m]))
+        return out
+
+    def arity_ok(self, fv, npos, kw, star, dstar, bound):
+        a = fv.node.args
+        params = [p.arg for p in a.posonlyargs + a.args]
+        if bound and fv.kind in ("method", "class") and params:
+            params = params[1:]
+        ndef = len(a.defaults)
+        required = params[:len(params) - ndef] if ndef else list(params)
+        if npos > len(params) and not a.vararg:
+            return False
+        konly = [p.arg for p in a.kwonlyargs]
+        for k in kw:
+            if k not in params and k not in konly and not a.kwarg:
+                return False
+            if k in params[:npos]:
+                return False
+        if not star and not dstar:
+            for i, p in enumerate(required):
+                if i >= npos and p not in kw:
+                    return False
+        return True
+
+    def call_value(self, fr, node, fvl, args, star, kw, dstar, out, what=""):
+        pos = self.pos(node, fr)
+        extra = star + dstar
+        allv = [a.var for a in args + extra + list(kw.values())]
+        if fvl.cls is not None:
+            return self.construct(fr, fvl.cls, args, kw, extra, node, out)
+        branches, res, any_obj = [], self.newvar(), False
+        for fv in sorted(fvl.funcs, key=lambda x: (x.node.lineno, x.node.col_offset)):
+            blk = []
+            a2 = args
+            if fv.cls is not None and fv.kind == "class":
+                a2 = [V(cls=fv.self_cls)] + args
+            r = self.inline(fr, fv, a2, kw, extra, node, blk)
+            if r.var is not None:
+                blk.append(ALIAS(res, [r.var], pos))
+                any_obj = True
+            branches.append((blk, r))
+        for tname in fvl.tab:
+            blk = []
+            if tname == "callback":
+                branches.append((blk, V()))
+                continue
+            kind = self.table_kind(tname)
+            if kind is None:
+                r = self.fail_closed(node, fr, allv, blk, "call of %s (not in the table)" % tname)
+            else:
+                r = self.table_call(fr, node, kind, tname, args, star, kw, dstar, blk)
+            if r.var is not None:
+                blk.append(ALIAS(res, [r.var], pos))
+                any_obj = True
+            branches.append((blk, r))
+        if fvl.unknown_fn or not branches:
+            if not branches and fvl.var is None and not fvl.funcs and not fvl.tab:
+                pass
+            blk = []
+            r = self.fail_closed(node, fr, [fvl.var] + allv, blk, "call of an unknown callable `%s`" % what)
+            blk.append(ALIAS(res, [r.var], pos))
+            any_obj = True
+            branches.append((blk, r))
+        self.emit_alternatives([b for b, _ in branches], out)
+        fs, unk = set(), False
+        for _, r in branches:
+            fs |= r.funcs
+            unk = unk or r.unknown_fn
+        if len(branches) == 1 and (branches[0][1].cls is not None or branches[0][1].items is not None):
+            return branches[0][1]
+        return V(var=res if any_obj else None, funcs=fs, unknown_fn=unk or (bool(fs) and any(r.var is not None and not r.funcs for _, r in branches)))
+
+    def table_kind(self, tname):
+        if tname in T.QUALIFIED:
+            return T.QUALIFIED[tname]
+        mod, _, name = tname.rpartition(".")
+        if mod == "numpy":
+            return T.NUMPY.get(name)
+        if mod == "builtins":
+            return T.BUILTINS.get(name)
+        if mod == "dict":
+            return T.QUALIFIED.get(tname) or T.METHODS.get(name)
+        return None
+
+    def construct(self, fr, ci, args, kw, extra, node, out):
+        obj = self.fresh(node, fr, [], out, "new " + ci.name)
+        r = ci.lookup("__init__")
+        if r is not None:
+            fv = FuncVal(r[1], r[0].module, cls=r[0], kind="method", self_cls=ci, exact=True)
+            self.inline(fr, fv, [V(var=obj)] + args, kw, extra, node, out)
+        elif ci.is_dict():
+            self.table_call(fr, node, "storec", "dict.__init__", [V(var=obj)] + args, [], kw, [], out)
+        return V(var=obj)
+
+    # ---- table calls -----------------------------------------------------------------------------
+    def table_call(self, fr, node, kind, tname, args, star, kw, dstar, out):
+        pos = self.pos(node, fr)
+        extra = star + dstar
+        if any(k in T.OUT_KEYWORDS for k in kw):
+            return self.fail_closed(node, fr, [a.var for a in args + extra + list(kw.values())], out, "%s with out=" % tname)
+        if tname == "numpy.array" and "copy" in kw and kw["copy"].const is not True:
+            kind = "viewfresh"
+        if kind == "fresh" and "copy" in kw and kw["copy"].const is not True and tname.endswith("astype"):
+            kind = "viewfresh"
+        for v in args + extra + list(kw.values()):
+            self.refresh_closures(fr, v, out, pos)
+        av = [a.var for a in args] + [self.elems(s.var, out, pos) for s in star]
+        kv = [v.var for v in kw.values()] + [self.elems(s.var, out, pos) for s in dstar]
+        allv = [v for v in av + kv if v is not None]
+        a0 = av[0] if av else None
+        rest = [v for v in av[1:] + kv if v is not None]
+        site = lambda w="": self.site(node, fr, tname + w)
+        x = self.newvar()
+        if kind in ("scalar", "noop", "callback"):
+            return V()
+        if kind == "fresh":
+            out.append(FRESH(x, site(), [], pos))
+            return V(var=x)
+        if kind == "copy":
+            c = self.newvar()
+            out.append(LOAD(c, ELEM, [a0], pos))
+            self.fresh_at(x, site(), [c], out, pos)
+            return V(var=x)
+        if kind == "freshc":
+            cs = [self.elems(v, out, pos) for v in allv]
+            if tname.endswith("dict"):
+                cs += [self.elems(c, out, pos) for c in list(cs)]
+            self.fresh_at(x, site(), cs, out, pos)
+            return V(var=x)
+        if kind == "freshr":
+            self.fresh_at(x, site(), allv, out, pos)
+            return V(var=x)
+        if kind == "pairs":
+            cs = [self.elems(v, out, pos) for v in allv]
+            t = self.newvar()
+            self.fresh_at(t, site("/tuple"), cs, out, pos)
+            self.fresh_at(x, site(), [t], out, pos)
+            return V(var=x)
+        if kind == "view":
+            out.append(ALIAS(x, [a0], pos))
+            return V(var=x) if a0 is not None else V()
+        if kind == "viewfresh":
+            out.append(FRESH(x, site(), [], pos))
+            out.append(ALIAS(x, [x, a0], pos))
+            return V(var=x)
+        if kind == "aliasany":
+            out.append(FRESH(x, site(), [], pos))
+            out.append(ALIAS(x, [x] + allv, pos))
+            return V(var=x)
+        if kind == "elem":
+            out.append(LOAD(x, ELEM, [a0], pos))
+            out.append(ALIAS(x, [x] + rest, pos))
+            fs = set()
+            for v in args[1:] + list(kw.values()):
+                fs |= v.funcs
+            return V(var=x, funcs=fs, unknown_fn=True if fs else False)
+        if kind == "elems":
+            e = self.elems(a0, out, pos)
+            out.append(ALIAS(x, [e] + rest, pos))
+            return V(var=x)
+        if kind == "inplace":
+            if a0 is None:
+                return V()
+            out.append(MUT(a0, pos))
+            return V()
+        if kind == "inplace_elem":
+            if a0 is None:
+                return V()
+            out.append(MUT(a0, pos))
+            out.append(LOAD(x, ELEM, [a0], pos))
+            out.append(ALIAS(x, [x] + rest, pos))
+            return V(var=x)
+        if kind == "store":
+            if a0 is None:
+                return V()
+            if not rest:
+                out.append(MUT(a0, pos))
+            for r in rest:
+                out.append(STORE(a0, ELEM, r, pos))
+            return V()
+        if kind == "storec":
+            if a0 is None:
+                return V()
+            out.append(MUT(a0, pos))
+            for r in rest:
+                c1 = self.elems(r, out, pos)
+                c2 = self.elems(c1, out, pos)
+                out.append(STORE(a0, ELEM, c1, pos))
+                out.append(STORE(a0, ELEM, c2, pos))
+            return V()
+        if kind == "setdefault":
+            if a0 is None:
+                return V()
+            out.append(MUT(a0, pos))
+            for r in rest:
+                out.append(STORE(a0, ELEM, r, pos))
+            out.append(LOAD(x, ELEM, [a0], pos))
+            out.append(ALIAS(x, [x] + rest, pos))
+            return V(var=x)
+        if kind in ("hof_map", "hof_axis"):
+            if kind == "hof_map":
+                # ThreadPool.map(f, xs) has the pool as args[0]; builtin map(f, xs) does not
+                fa = args[1:] if tname.startswith(".") or tname.startswith("dict.") else args
+                fn, data = (fa[0], fa[1:]) if fa else (None, [])
+                ev = [self.elems(d.var, out, pos) for d in data]
+            else:
+                fn = args[0] if args else None
+                data = args[2:3]
+                ev = []
+                for d in data:
+                    v = self.newvar()
+                    out.append(ALIAS(v, [d.var], pos))          # 1-d views of the array
+                    ev.append(v)
+            if fn is None or not fn.funcs or fn.unknown_fn or fn.tab:
+                return self.fail_closed(node, fr, allv, out, "%s with an unknown function" % tname)
+            out.append(FRESH(x, site(), [], pos))
+            body = []
+            r = self.call_value(fr, node, V(funcs=fn.funcs), [V(var=v) for v in ev], [], {}, [], body, what=tname)
+            if r.var is not None:
+                body.append(STORE(x, ELEM, r.var, pos))
+                body.append(ALIAS(x, [x, r.var], pos))
+            out.append(LOOP(body))
+            return V(var=x)
+        if kind == "reduce":
+            op = args[0] if args else None
+            if op is None or not op.tab or any(self.table_kind(t) != "fresh" for t in op.tab) or op.funcs:
+                return self.fail_closed(node, fr, allv, out, "functools.reduce with an unknown operator")
+            out.append(FRESH(x, site(), [], pos))
+            es = [self.elems(v.var, out, pos) for v in args[1:2]] + [v.var for v in args[2:]]
+            out.append(ALIAS(x, [x] + es, pos))
+            return V(var=x)
+        raise Unsupported("table kind %s" % kind)
+
+    # ---- inlining --------------------------------------------------------------------------------
+    def inline(self, fr, fv, args, kw, extra, node, out):
+        """Inline a call of the in-scope function fv; args are V's (self first for methods)."""
+        pos = self.pos(node, fr)
+        fn = fv.node
+        if isinstance(fn, ast.FunctionDef) and any(ast.unparse(d) not in ("staticmethod", "classmethod", "property") for d in fn.decorator_list):
+            return self.fail_closed(node, fr, [a.var for a in args + extra + list(kw.values())], out, "decorated function %s" % fn.name)
+        a = fn.args
+        params = [p.arg for p in a.posonlyargs + a.args]
+        defaults = [None] * (len(params) - len(a.defaults)) + list(a.defaults)
+        kwonly = [(p.arg, d) for p, d in zip(a.kwonlyargs, a.kw_defaults)]
+        bind = {}
+        if len(args) > len(params) and not a.vararg:
+            return self.fail_closed(node, fr, [x.var for x in args + extra + list(kw.values())], out, "too many arguments for %s" % getattr(fn, "name", "lambda"))
+        for i, p in enumerate(params):
+            if i < len(args):
+                bind[p] = args[i]
+            elif p in kw:
+                bind[p] = kw[p]
+        for p, d in kwonly:
+            if p in kw:
+                bind[p] = kw[p]
+        unbound_kw = [k for k in kw if k not in params and k not in [p for p, _ in kwonly]]
+        if unbound_kw and not a.kwarg:
+            return self.fail_closed(node, fr, [x.var for x in args + extra + list(kw.values())], out, "unexpected keyword for %s" % getattr(fn, "name", "lambda"))
+        # constant signature (for specialisation and recursion detection)
+        nf = Frame(self, fn, fv.module, parent=fv.parent, cls=fv.cls, self_cls=fv.self_cls, exact=fv.exact)
+        consts = {}
+        for p, d in list(zip(params, defaults)) + kwonly:
+            if p in nf.rebound:
+                continue
+            if p in bind:
+                if bind[p].const is not NOC and bind[p].var is None and not extra:
+                    consts[p] = bind[p].const
+            elif d is not None and isinstance(d, ast.Constant) and not extra:
+                consts[p] = d.value
+        key = (id(fn), id(fv.parent), tuple(sorted((k, repr(v)) for k, v in consts.items())), id(fv.self_cls), fv.exact)
+        for k2, f2 in self.stack:
+            if k2 == key:
+                # recursion: the callee is the loop f2 is wrapped in; weakly re-bind its parameters
+                f2.recursive = True
+                for (p, pv) in f2.params:
+                    srcs = [pv]
+                    if p in bind and bind[p].var is not None:
+                        srcs.append(bind[p].var)
+                    for e in extra:
+                        srcs.append(self.elems(e.var, out, pos))
+                    out.append(ALIAS(pv, srcs, pos))
+                    if p in bind:
+                        f2.funcs.setdefault(p, set()).update(bind[p].funcs)
+                        self.refresh_closures(fr, bind[p], out, pos)
+                r = self.newvar()
+                out.append(ALIAS(r, [f2.ret], pos))
+                return V(var=r, funcs=f2.ret_funcs, unknown_fn=True if f2.ret_funcs else False)
+        if len(self.stack) >= MAX_INLINE_DEPTH:
+            return self.fail_closed(node, fr, [x.var for x in args + extra + list(kw.values())], out, "inline depth exceeded at %s" % getattr(fn, "name", "lambda"))
+        nf.consts = consts
+        pre = []
+        if fv.kind in ("method", "class") and params and fv.cls is not None:
+            nf.self_name = params[0]
+            if fv.kind == "class":
+                nf.self_cls = fv.self_cls
+        for p, d in list(zip(params, defaults)) + kwonly:
+            pv = nf.var(p)
+            nf.params.append((p, pv))
+            srcs = []
+            if p in bind:
+                v = bind[p]
+                srcs.append(v.var)
+                if v.funcs:
+                    nf.funcs[p] = set(v.funcs)
+                    if v.unknown_fn:
+                        nf.fn_unknown.add(p)
+                elif v.var is not None:
+                    nf.fn_unknown.add(p)
+                if v.cls is not None:
+                    nf.consts.pop(p, None)
+                    nf.clsparams = getattr(nf, "clsparams", {})
+                    nf.clsparams[p] = v.cls
+            else:
+                if d is not None:
+                    dv = self.ex(Frame(self, None, fv.module, parent=None, kind="comp"), d, pre)
+                    srcs.append(dv.var)
+                for e in extra:
+                    srcs.append(self.elems(e.var, pre, pos))
+                    nf.fn_unknown.add(p)
+            pre.append(ALIAS(pv, srcs, pos))
+        if a.vararg:
+            pv = nf.var(a.vararg.arg)
+            nf.params.append((a.vararg.arg, pv))
+            refs = [x.var for x in args[len(params):]] + [self.elems(e.var, pre, pos) for e in extra]
+            self.fresh_at(pv, self.site(fn, nf, "varargs"), refs, pre, pos)
+        if a.kwarg:
+            pv = nf.var(a.kwarg.arg)
+            nf.params.append((a.kwarg.arg, pv))
+            refs = [kw[k].var for k in unbound_kw] + [self.elems(e.var, pre, pos) for e in extra]
+            self.fresh_at(pv, self.site(fn, nf, "kwargs"), refs, pre, pos)
+        body_stmts = fn.body if isinstance(fn, ast.FunctionDef) else [ast.Return(value=fn.body)]
+        if isinstance(fn, ast.FunctionDef) and has_yield(fn):
+            nf.gen = self.newvar()
+            pre.append(FRESH(nf.gen, self.site(fn, nf, "generator"), [], pos))
+        self.stack.append((key, nf))
+        try:
+            body = self.block(nf, body_stmts, [])
+        finally:
+            self.stack.pop()
+        out.extend(pre)
+        if nf.recursive:
+            out.append(LOOP(body))
+        else:
+            out.extend(body)
+        if nf.gen is not None:
+            return V(var=nf.gen)
+        if not nf.ret_objs and not nf.ret_funcs:
+            return V()
+        items = nf.ret_items if (nf.ret_items and not nf.recursive) else None
+        return V(var=nf.ret, funcs=nf.ret_funcs, unknown_fn=nf.ret_unknown and bool(nf.ret_funcs), items=items)
+
+    # ---- statements ------------------------------------------------------------------------------
+    def block(self, fr, stmts, k):
+        """IR of the statement list followed by the continuation k (at every fall-through point)."""
+        out = []
+        i = 0
+        while i < len(stmts):
+            s = stmts[i]
+            rest = stmts[i + 1:]
+            pos = self.pos(s, fr)
+            if isinstance(s, ast.If):
+                c = self.static_cond(fr, s.test)
+                if c is True:
+                    return out + self.block(fr, list(s.body) + rest, k)
+                if c is False:
+                    return out + self.block(fr, list(s.orelse) + rest, k)
+                self.ex(fr, s.test, out)
+                if has_jump(s.body) or has_jump(s.orelse):
+                    a = self.block(fr, list(s.body) + rest, k)
+                    b = self.block(fr, list(s.orelse) + rest, k)
+                    out.append(IF(a, b))
+                    return out
+                out.append(IF(self.block(fr, s.body, []), self.block(fr, s.orelse, [])))
+            elif isinstance(s, ast.With):
+                pre = []
+                for it in s.items:
+                    if it.optional_vars is not None:
+                        pre.append(ast.copy_location(ast.Assign(targets=[it.optional_vars], value=it.context_expr), s))
+                    else:
+                        pre.append(ast.copy_location(ast.Expr(value=it.context_expr), s))
+                return out + self.block(fr, pre + list(s.body) + rest, k)
+            elif isinstance(s, ast.Return):
+                if s.value is not None:
+                    v = self.ex(fr, s.value, out)
+                    self.refresh_closures(fr, v, out, pos)
+                    if v.items is not None and fr.ret_items is not False and (fr.ret_items is None or len(fr.ret_items) == len(v.items)):
+                        if fr.ret_items is None:
+                            fr.ret_items = [self.newvar() for _ in v.items]
+                        for rv, iv in zip(fr.ret_items, v.items):
+                            out.append(ALIAS(rv, [rv, iv], pos))
+                    else:
+                        fr.ret_items = False
+                    if v.var is not None:
+                        out.append(ALIAS(fr.ret, [fr.ret, v.var], pos))
+                        fr.ret_objs = True
+                        if not v.funcs:
+                            fr.ret_unknown = True
+                    fr.ret_funcs |= v.funcs
+                    if v.unknown_fn:
+                        fr.ret_unknown = True
+                return out
+            elif isinstance(s, ast.Raise):
+                if s.exc is not None:
+                    self.ex(fr, s.exc, out)
+                return out
+            elif isinstance(s, (ast.Break, ast.Continue)):
+                if getattr(fr, "in_try", 0):
+                    raise Unsupported("break/continue inside try")
+                return out
+            else:
+                self.stmt(fr, s, out)
+            i += 1
+        return out + k
+
+    def loop_body(self, fr, body):
+        return self.block(fr, body, [])
+
+    def stmt(self, fr, s, out):
+        pos = self.pos(s, fr)
+        if isinstance(s, ast.Expr):
+            self.ex(fr, s.value, out)
+        elif isinstance(s, ast.Assign):
+            v = self.ex(fr, s.value, out)
+            for t in s.targets:
+                self.assign(fr, t, v, out, pos)
+            if len(s.targets) == 1 and isinstance(s.targets[0], ast.Name) and isinstance(s.value, ast.Call) and len(self.stack) <= 1:
+                self.maybe_claim(fr, s)
+        elif isinstance(s, ast.AnnAssign):
+            if s.value is not None:
+                self.assign(fr, s.target, self.ex(fr, s.value, out), out, pos)
+        elif isinstance(s, ast.AugAssign):
+            v = self.ex(fr, s.value, out)
+            t = s.target
+            if isinstance(t, ast.Name):
+                o = fr.owner(t.id)
+                if o is None:
+                    raise Unsupported("augmented assignment to a global")
+                x = o.var(t.id)
+                # arrays are modified in place, immutable values are re-bound to a new object
+                out.append(MUT(x, pos))
+                if v.var is not None:
+                    c = self.newvar()
+                    out.append(LOAD(c, ELEM, [x, v.var], pos))
+                    n = self.fresh(s, fr, [c], out, "augassign")
+                    out.append(ALIAS(x, [x, n], pos))
+                o.consts.pop(t.id, None)
+            elif isinstance(t, ast.Attribute):
+                b = self.ex(fr, t.value, out)
+                if t.attr in T.DIAG_FIELDS or b.var is None:
+                    return
+                cur = self.newvar()
+                out.append(LOAD(cur, self.src.field(t.attr), [b.var], pos))
+                out.append(MUT(cur, pos))
+                out.append(MUT(b.var, pos))
+                if v.var is not None:
+                    # o.f = o.f.__iadd__(v): the old object (modified in place) or a NEW one, never v itself
+                    c = self.newvar()
+                    out.append(LOAD(c, ELEM, [v.var], pos))
+                    n = self.fresh(s, fr, [c], out, "augassign")
+                    out.append(STORE(b.var, self.src.field(t.attr), n, pos))
+            elif isinstance(t, ast.Subscript):
+                b = self.ex(fr, t.value, out)
+                self.ex(fr, t.slice, out)
+                if b.var is not None:
+                    cur = self.elems(b.var, out, pos)
+                    out.append(MUT(cur, pos))
+                    out.append(MUT(b.var, pos))
+                    if v.var is not None and not self.is_ndarray_local(fr, t.value):
+                        c = self.newvar()
+                        out.append(LOAD(c, ELEM, [v.var], pos))
+                        n = self.fresh(s, fr, [c], out, "augassign")
+                        out.append(STORE(b.var, ELEM, n, pos))
+            else:
+                raise Unsupported("augmented assignment target")
+        elif isinstance(s, (ast.For, ast.While)):
+            if isinstance(s, ast.For):
+                it = self.ex(fr, s.iter, out)
+                body = []
+                if self.iter_has_generator_call(fr, s.iter):
+                    it = self.ex(fr, s.iter, body)      # the generator body runs interleaved with the loop body
+                el = self.elems(it.var, body, pos)
+                self.assign(fr, s.target, V(var=el), body, pos)
+            else:
+                body = []
+                self.ex(fr, s.test, body)
+            body = body + self.loop_body(fr, list(s.body))
+            out.append(LOOP(body))
+            if s.orelse:
+                out.extend(self.block(fr, list(s.orelse), []))
+        elif isinstance(s, ast.Try):
+            fr.in_try = getattr(fr, "in_try", 0) + 1
+            try:
+                for b in s.body:
+                    out.append(IF(self.block(fr, [b], []), []))
+                hs = []
+                for h in s.handlers:
+                    if h.type is not None:
+                        self.ex(fr, h.type, out)
+                    if h.name:
+                        fr.owner(h.name).var(h.name)
+                    hs.append(self.block(fr, list(h.body), []))
+                hs.append([])
+                self.emit_alternatives(hs, out)
+                out.extend(self.block(fr, list(s.orelse), []))
+                out.extend(self.block(fr, list(s.finalbody), []))
+            finally:
+                fr.in_try -= 1
+        elif isinstance(s, ast.FunctionDef):
+            o = fr.owner(s.name)
+            fv = FuncVal(s, fr.module, parent=fr, kind="function")
+            clo = self.closure_object(fr, s, out)
+            fv.clo = clo
+            out.append(ALIAS(o.var(s.name), [clo], pos))
+            o.funcs.setdefault(s.name, set()).add(fv)
+        elif isinstance(s, ast.Delete):
+            for t in s.targets:
+                if isinstance(t, ast.Subscript):
+                    b = self.ex(fr, t.value, out)
+                    self.ex(fr, t.slice, out)
+                    if b.var is not None:
+                        out.append(MUT(b.var, pos))
+                elif isinstance(t, ast.Attribute):
+                    b = self.ex(fr, t.value, out)
+                    if b.var is not None:
+                        out.append(MUT(b.var, pos))
+        elif isinstance(s, ast.Assert):
+            self.ex(fr, s.test, out)
+            if s.msg is not None:
+                self.ex(fr, s.msg, out)
+        elif isinstance(s, ast.Pass):
+            pass
+        elif isinstance(s, ast.ImportFrom):
+            for a in s.names:
+                q = "catii." + ((s.module + ".") if s.module else "") + a.name if s.level else s.module + "." + a.name
+                fr.owner(a.asname or a.name).mods[a.asname or a.name] = q
+        elif isinstance(s, ast.Import):
+            for a in s.names:
+                fr.owner((a.asname or a.name).split(".")[0]).mods[(a.asname or a.name).split(".")[0]] = a.name
+        else:
+            raise Unsupported("statement %s" % type(s).__name__)
+
+    def iter_has_generator_call(self, fr, e):
+        for n in ast.walk(e):
+            if isinstance(n, ast.Call):
+                nm = n.func.attr if isinstance(n.func, ast.Attribute) else (n.func.id if isinstance(n.func, ast.Name) else None)
+                if nm is None:
+                    continue
+                for c in self.src.all_classes:
+                    if nm in c.methods and has_yield(c.methods[nm]):
+                        return True
+                for m in self.src.mods.values():
+                    if nm in m.functions and has_yield(m.functions[nm]):
+                        return True
+        return False
+
+    def is_ndarray_local(self, fr, e):
+        if isinstance(e, ast.Name):
+            o = fr.owner(e.id)
+            return o is not None and e.id in o.nd
+        return False
+
+    def assign(self, fr, t, v, out, pos):
+        if isinstance(t, ast.Name):
+            o = fr.owner(t.id)
+            if o is None:
+                raise Unsupported("assignment to a global name %s (frame %s)" % (t.id, getattr(fr.fn, "name", fr.kind)))
+            out.append(ALIAS(o.var(t.id), [v.var], pos))
+            o.consts.pop(t.id, None)
+            if v.funcs:
+                o.funcs.setdefault(t.id, set()).update(v.funcs)
+                if v.unknown_fn:
+                    o.fn_unknown.add(t.id)
+            elif v.var is not None:
+                o.fn_unknown.add(t.id)
+        elif isinstance(t, (ast.Tuple, ast.List)) and v.items is not None and len(v.items) == len(t.elts) \
+                and not any(isinstance(e, ast.Starred) for e in t.elts):
+            for e, iv in zip(t.elts, v.items):
+                self.assign(fr, e, V(var=iv), out, pos)
+        elif isinstance(t, (ast.Tuple, ast.List)):
+            el = self.elems(v.var, out, pos) if v.var is not None else None
+            for e in t.elts:
+                if isinstance(e, ast.Starred):
+                    n = self.fresh(e, fr, [el], out, "starred-target")
+                    self.assign(fr, e.value, V(var=n), out, pos)
+                else:
+                    self.assign(fr, e, V(var=el, funcs=v.funcs, unknown_fn=True if v.funcs else False), out, pos)
+        elif isinstance(t, ast.Attribute):
+            b = self.ex(fr, t.value, out)
+            self.refresh_closures(fr, v, out, pos)
+            if b.var is None:
+                raise Unsupported("attribute store on a non-object")
+            if t.attr in T.DIAG_FIELDS:
+                d = self.diagvar(t.attr)
+                out.append(ALIAS(d, [d, v.var], pos))      # diagnostics live outside the protected state
+                return
+            if v.var is None:
+                out.append(MUT(b.var, pos))
+            else:
+                out.append(STORE(b.var, self.src.field(t.attr), v.var, pos))
+        elif isinstance(t, ast.Subscript):
+            b = self.ex(fr, t.value, out)
+            self.ex(fr, t.slice, out)
+            self.refresh_closures(fr, v, out, pos)
+            if b.var is None:
+                raise Unsupported("subscript store on a non-object")
+            if v.var is None or self.is_ndarray_local(fr, t.value):
+                out.append(MUT(b.var, pos))
+            else:
+                out.append(STORE(b.var, ELEM, v.var, pos))
+        elif isinstance(t, ast.Starred):
+            self.assign(fr, t.value, v, out, pos)
+        else:
+            raise Unsupported("assignment target %s" % type(t).__name__)
+
+    def maybe_claim(self, fr, s):
+        """FreshTracer claim: after `name = <call classified fresh>` the local shares no memory with the arguments"""
+        f = s.value.func
+        kind = None
+        if isinstance(f, ast.Attribute):
+            if isinstance(f.value, ast.Name) and fr.module.imports.get(f.value.id) == "numpy":
+                kind = T.NUMPY.get(f.attr)
+                if f.attr == "array" and any(k.arg == "copy" for k in s.value.keywords):
+                    kind = None
+            elif f.attr in T.METHODS:
+                kind = T.METHODS[f.attr]
+        if kind in ("fresh", "copy") and isinstance(fr.fn, ast.FunctionDef):
+            self.claims.append({"file": fr.module.name + ".py", "line": s.lineno, "var": s.targets[0].id, "kind": kind,
+                                "call": ast.unparse(f)})
+
+
+# ================================================================================================
+# part 5: programs
+# ================================================================================================
+DRIVER_FILL_FUNC = """
+def __fill_func_and_fill(self, regions, x_coords, x_rowids):
+    fill = self.fill_func(regions)
+    while True:
+        fill(x_coords, x_rowids)
+"""
+
+
+def ret_fresh_spec(modname, clsname, fname):
+    rf = T.RET_FRESH
+    if (modname, clsname, fname) in rf:
+        return rf[(modname, clsname, fname)]
+    if fname in rf:
+        return rf[fname]
+    return None
+
+
+def entry_heap(src):
+    h0, h1 = set(), {(ANY, TAG_OWN)}
+    h0.add((ELEM, TAG_PROT))
+    for name, f in src.fields.items():
+        if name in T.DIAG_FIELDS:
+            h0.add((f, TAG_DIAG))
+            h1.add((f, TAG_DIAG))
+        else:
+            h0.add((f, TAG_PROT))
+    return {TAG_PROT: h0, TAG_OWN: h1, TAG_DIAG: {(ANY, TAG_DIAG)}}
+
+
+def build_program(src, name, module, fn, cls=None, kind="function", spec=None):
+    """One program: fn called with arbitrary caller-owned arguments."""
+    tr = Translator(src)
+    a = fn.args
+    params = [p.arg for p in a.posonlyargs + a.args]
+    ndef = len(a.defaults)
+    optional = set(params[len(params) - ndef:]) if ndef else set()
+    fname = fn.name
+    clsname = cls.name if cls is not None else None
+    unprot = set(T.UNPROTECTED_PARAMS) | set(T.UNPROTECTED_BY_FUNCTION.get(fname, ()))
+    rf = spec if spec is not None else ret_fresh_spec(module.name, clsname, fname)
+    consts = {}
+    if rf == "defaults":
+        consts = {p: NOC for p in optional}            # omitted: the defaults apply
+    elif isinstance(rf, dict):
+        consts = dict(rf)
+    entry_v, args, kw = {}, [], {}
+    top = Frame(tr, None, module, kind="comp")
+    for i, p in enumerate(params):
+        if i == 0 and kind == "class":
+            args.append(V(cls=cls))
+            continue
+        if p in consts:
+            if consts[p] is NOC:
+                continue
+            kw[p] = V(const=consts[p])
+            continue
+        pv = tr.newvar()
+        is_self = (i == 0 and kind == "method")
+        tag = TAG_PROT
+        if p in unprot or (is_self and fname in T.UNPROTECTED_SELF):
+            tag = TAG_OWN
+        entry_v[pv] = {tag}
+        if len(args) == i:
+            args.append(V(var=pv))
+        else:
+            kw[p] = V(var=pv)
+    extra = []
+    if a.vararg:
+        pv = tr.newvar()
+        entry_v[pv] = {TAG_PROT}
+        extra.append(V(var=pv))
+    fv = FuncVal(fn, module, cls=cls, kind=kind, self_cls=cls, exact=True)
+    body = []
+    err = None
+    try:
+        r = tr.inline(top, fv, args, kw, extra, fn, body)
+        rets = [r.var] if r.var is not None else []
+        if ir_size(body) > MAX_IR:
+            raise Unsupported("IR too large (%d statements)" % ir_size(body))
+    except Unsupported as e:
+        err = str(e)
+    except RecursionError:
+        err = "translator recursion limit"
+    if err is not None:
+        # fail closed: a program that modifies a protected object
+        pv = tr.newvar() if not entry_v else sorted(entry_v)[0]
+        entry_v = {pv: {TAG_PROT}}
+        body, rets = [MUT(pv, ("untranslatable", err))], []
+    return {"name": name, "body": body, "entry_v": entry_v, "entry_h": entry_heap(src), "protected": [TAG_PROT],
+            "rets": rets, "ret_fresh": bool(rf is not None and err is None), "error": err, "claims": tr.claims,
+            "failclosed": tr.failclosed, "nvars": tr.nv, "nsites": len(tr.sites), "size": ir_size(body),
+            "file": module.name + ".py", "line": fn.lineno}
+
+
+def program_list(src):
+    """(name, module, fn, cls, kind) of every in-scope function"""
+    out = []
+    for mname in MODULES:
+        m = src.mods[mname]
+        for fname, fn in m.functions.items():
+            if fname in T.OUT_OF_SCOPE:
+                continue
+            out.append(("%s.%s" % (mname, fname), m, fn, None, "function"))
+        for cname, c in m.classes.items():
+            if c.subs:
+                continue                    # abstract bases: their methods are translated through the subclasses
+            seen = set()
+            for k in c.mro():
+                for meth, fn in k.methods.items():
+                    if meth in seen:
+                        continue
+                    seen.add(meth)
+                    if meth in T.OUT_OF_SCOPE or (meth == "calculate" and k.subs):
+                        continue
+                    if meth.startswith("__") and meth not in ("__init__", "__eq__", "__ne__"):
+                        continue
+                    kind = k.kinds[meth]
+                    if kind == "unknown-decorator":
+                        continue
+                    if kind == "property":
+                        kind = "method"
+                    if all(isinstance(st, (ast.Raise, ast.Expr, ast.Pass)) for st in fn.body):
+                        continue            # `raise NotImplementedError` stubs
+                    if meth == "fill_func":
+                        drv = ast.parse(DRIVER_FILL_FUNC).body[0]
+                        drv.name = "fill_func"
+                        for n in ast.walk(drv):
+                            if hasattr(n, "lineno"):
+                                n.lineno = fn.lineno
+                                n.end_lineno = fn.lineno
+                        out.append(("%s.%s.fill_func+_fill" % (mname, cname), m, drv, c, "method"))
+                        continue
+                    out.append(("%s.%s.%s" % (mname, cname, meth), m, fn, c, kind))
+    return out
+
+
+def translate_all(src):
+    progs = []
+    for (name, m, fn, c, kind) in program_list(src):
+        p = build_program(src, name, m, fn, c, kind)
+        progs.append(p)
+    return progs
+
+
+class _DropCopy(ast.NodeTransformer):
+    """control mutant: delete the first `x = x.copy()` of the named function"""
+
+    def __init__(self, cls, fn):
+        self.cls, self.fname, self.done, self.in_cls = cls, fn, False, None
+
+    def visit_ClassDef(self, node):
+        old, self.in_cls = self.in_cls, node.name
+        self.generic_visit(node)
+        self.in_cls = old
+        return node
+
+    def visit_FunctionDef(self, node):
+        if node.name == self.fname and self.in_cls == self.cls:
+            self.cur = True
+            self.generic_visit(node)
+            self.cur = False
+        return node
+
+    def visit_Assign(self, node):
+        if getattr(self, "cur", False) and not self.done and len(node.targets) == 1 and isinstance(node.targets[0], ast.Name) \
+                and isinstance(node.value, ast.Call) and isinstance(node.value.func, ast.Attribute) and node.value.func.attr == "copy" \
+                and isinstance(node.value.func.value, ast.Name) and node.value.func.value.id == node.targets[0].id:
+            self.done = True
+            return ast.copy_location(ast.Pass(), node)
+        return node
+
+
+CONTROL_MUTANTS = [("ffuncs", "ffunc_count", "__init__"), ("xfuncs", "xfunc_sum", "__init__")]
+
+
+def control_mutants(repo):
+    out = []
+    for (mod, cls, fname) in CONTROL_MUTANTS:
+        try:
+            text = open(os.path.join(repo, "src", "catii", mod + ".py")).read()
+            tree = ast.parse(text)
+            tf = _DropCopy(cls, fname)
+            tree = tf.visit(tree)
+            if not tf.done:
+                continue
+            ast.fix_missing_locations(tree)
+            src = Source(repo, {mod: ast.unparse(tree)})
+            m = src.mods[mod]
+            c = m.classes[cls]
+            p = build_program(src, "control:%s.%s.%s without its copy()" % (mod, cls, fname), m, c.methods[fname], c, "method")
+            out.append(p)
+        except Exception:  # noqa - a control that cannot be built is simply absent (reported by the check)
+            continue
+    return out
